@@ -1,6 +1,7 @@
 import Driver.Proto
 import Gotree.Spec.C06
 import Gotree.Model.C06Index
+import Gotree.Model.C06Stale
 
 namespace Gotree.Driver.C06
 open Gotree Gotree.Driver Gotree.C06
@@ -224,6 +225,18 @@ def handleRemove (extra : List String) (revs namess dump outcome adump exs tis n
     | none => v
   | _, _, _, _, _, _, _, _, _, _ => bad "C06.remove/stale fields"
 
+/-- `kind:a:b;…` with percent-escaped names -/
+def parseEdits (s : String) : Option (List Edit) :=
+  (splitTerm ";" s).mapM fun e =>
+    match e.splitOn ":" with
+    | [k, a, b] =>
+      match unescape a, unescape b with
+      | some a, some b =>
+        if k == "rename" then some (.rename a b) else if k == "swap" then some (.swap a b)
+        else if k == "graft" then some (.graft a b) else if k == "prune" then some (.prune a) else none
+      | _, _ => none
+    | _ => none
+
 def handle (op : String) (f : List String) : Verdict :=
   match op, f with
   | "remove", [revs, namess, pre, dump, outcome, adump, exs, tis, nbs, tnns, tnds, tnps, rowss, ces] =>
@@ -231,9 +244,22 @@ def handle (op : String) (f : List String) : Verdict :=
   -- a history on one in-memory tree: index built, tree edited behind the index's back (`edits`, applied by the
   -- harness on the real tree `n0`), then RemoveTips on the tree whose α dump is `dump`; judged exactly like
   -- `remove` (RemoveTips works from the tree, never from the cached name → tip map)
-  | "stale", [revs, namess, edits, _n0, dump, outcome, adump, exs, tis, nbs, tnns, tnds, tnps, rowss, ces] =>
+  | "stale", [revs, namess, edits, n0, dump, outcome, adump, exs, tis, nbs, tnns, tnds, tnps, rowss, ces] =>
     let kinds := ((splitTerm ";" edits).map fun e => "edit-" ++ ((e.splitOn ":").headD "")).eraseDups
-    handleRemove (["stale-index", "preindex"] ++ kinds) revs namess dump outcome adump exs tis nbs tnns tnds tnps rowss ces
+    let v := handleRemove (["stale-index", "preindex"] ++ kinds) revs namess dump outcome adump exs tis nbs tnns tnds tnps rowss ces
+    -- tie of the model of the edits (Model/C06Stale): applied to the tree before the history it must give the
+    -- tree `RemoveTips` was called on (same observation; the whole α dump as fidelity, tag edits-exact)
+    if v.status != .pass then v else
+    match parseEdits edits, T.undump n0, T.undump dump with
+    | some es, some t0, some before =>
+      if !(C06.uniq t0) then { v with tags := "edits-untied" :: v.tags } else
+      match applyEdits es t0 with
+      | none => ⟨.tie, v.tags, "model of the edits: an edit the harness applied does not apply in the model"⟩
+      | some mt =>
+        if obs before.rooted mt != obs before.rooted before then
+          ⟨.tie, v.tags, "model of the edits differs on: " ++ diffObs (obs before.rooted mt) (obs before.rooted before) ++ " model " ++ mt.dump⟩
+        else { v with tags := "edits-tied" :: (tagIf (mt.dump == before.dump) "edits-exact" ++ v.tags) }
+    | _, _, _ => bad "C06.stale edits / dumps"
   | "cli", [revs, hasF, fnamess, hasC, cdump, randoms, _seed, argss, dump, outcome, adump, hook] =>
     match parseBool revs, parseBool hasF, parseStrList fnamess, parseBool hasC, randoms.toInt?, parseStrList argss, T.undump dump with
     | some rev, some hf, some fnames, some hc, some random, some args, some before =>
